@@ -180,6 +180,17 @@ impl Parts {
         fb.build()
     }
 }
+impl Parts {
+    /// head / hhea / maxp / hmtx of the 2-glyph OTTO shell (shared with `cff2prog`)
+    pub fn metric_tables(&self) -> Vec<(Tag, Vec<u8>)> {
+        vec![
+            (Tag::new(b"head"), self.head.clone()),
+            (Tag::new(b"hhea"), self.hhea.clone()),
+            (Tag::new(b"maxp"), self.maxp.clone()),
+            (Tag::new(b"hmtx"), self.hmtx.clone()),
+        ]
+    }
+}
 impl Default for Parts {
     fn default() -> Self {
         Self::new()
